@@ -248,6 +248,8 @@ def make_fault(rng, op_id, kind, key):
         f["frac"] = rng.choice([0.0, 0.3, 0.9])
     if kind in ("EMFILE", "RENAME_EIO"):
         f["nth"] = 0
+    if kind in ("HTTP_5XX", "CONN_ERR", "TIMEOUT", "HTTP_404", "ERR_BEFORE", "ERR_MID", "NOTFOUND", "RET_FALSE_MID") and rng.random() < 0.5:
+        f["persist"] = True  # the remote stays in that state for the whole operation (matters for code that retries)
     return f
 
 
